@@ -40,4 +40,61 @@ def corpus_schemas() -> List[G.Schema]:
     top = G.MsgDef("Top", False)
     top.fields = [G.Field("o", 2, G.TRef(outer)), G.Field("after", 5, G.TInt(64)), G.Field("before", 1, G.TUint(1))]
     out.append(G.Schema("nestcase", [inner, outer, top]))
+    # rows of messages, extensible rows, three dimensions (accessor depth through alias chains)
+    cell = G.MsgDef("Cell", False)
+    cell.fields = [G.Field("v", 1, G.TInt(5)), G.Field("w", 2, G.TBool())]
+    cellx = G.MsgDef("CellX", True)
+    cellx.fields = [G.Field("u", 1, G.TUint(9))]
+    rowm = G.AliasDef("RowM", G.TArray(G.TRef(cell), 2, False))
+    rowmx = G.AliasDef("RowMX", G.TArray(G.TRef(cellx), 2, True))
+    rowx = G.AliasDef("RowX", G.TArray(G.TUint(3), 2, True))
+    plane = G.AliasDef("Plane", G.TArray(G.TRef(rowm), 2, False))
+    planes = G.AliasDef("PlaneS", G.TArray(G.TRef(rowx), 3, False))
+    cube = G.MsgDef("Cube", False)
+    cube.fields = [G.Field("pad", 1, G.TUint(1)), G.Field("grid", 2, G.TArray(G.TRef(rowm), 3, False)),
+                   G.Field("gridx", 3, G.TArray(G.TRef(rowmx), 2, True)), G.Field("gx", 4, G.TArray(G.TRef(rowx), 3, False)),
+                   G.Field("cube", 5, G.TArray(G.TRef(plane), 2, False)), G.Field("cubes", 6, G.TArray(G.TRef(planes), 2, True)),
+                   G.Field("one_row", 7, G.TRef(rowm)), G.Field("tail", 8, G.TUint(7))]
+    out.append(G.Schema("cubecase", [cell, cellx, rowm, rowmx, rowx, plane, planes, cube]))
+    # empty messages: plain and extensible, as field, as array element, nested
+    void = G.MsgDef("Void", False)
+    voidx = G.MsgDef("VoidX", True)
+    holder = G.MsgDef("Holder", True)
+    holder.fields = [G.Field("a", 1, G.TRef(void)), G.Field("b", 2, G.TRef(voidx)), G.Field("c", 3, G.TArray(G.TRef(voidx), 2, False)),
+                     G.Field("d", 4, G.TArray(G.TRef(void), 3, True)), G.Field("after", 5, G.TUint(5))]
+    out.append(G.Schema("voidcase", [void, voidx, holder]))
+    return out
+
+
+def evolution_schemas(deep: bool = False) -> List[G.Schema]:
+    """NEWEST versions for C05; `force_devolve` makes every permitted evolution step happen on the way back"""
+    out: List[G.Schema] = []
+
+    def mark(s: G.Schema) -> G.Schema:
+        s.force_devolve = True
+        return s
+
+    # both steps at once on one array: capacity grows AND the element message grows; a field follows
+    elem = G.MsgDef("Elem", True)
+    elem.fields = [G.Field("a", 1, G.TUint(5)), G.Field("b", 2, G.TInt(9)), G.Field("c", 3, G.TUint(11))]
+    rowx = G.AliasDef("RowX", G.TArray(G.TUint(3), 3, True))
+    hold = G.MsgDef("Holder", False)
+    hold.fields = [G.Field("h", 1, G.TBool()), G.Field("items", 2, G.TArray(G.TRef(elem), 3, True)), G.Field("after", 3, G.TUint(8)),
+                   G.Field("rows", 4, G.TArray(G.TRef(rowx), 3, True)), G.Field("after2", 5, G.TInt(7)),
+                   G.Field("std", 6, G.TArray(G.TInt(32), 3, True)), G.Field("after3", 7, G.TUint(16)),
+                   G.Field("bytes", 8, G.TArray(G.TByte(), 6, True)), G.Field("after4", 9, G.TUint(3))]
+    out.append(mark(G.Schema("bothsteps", [elem, rowx, hold])))
+    # a size / capacity prefix at every odd bit offset r whose value needs more than 16 - r bits
+    for r in range(1 if deep else 5, 8):  # small r = long messages: thorough tier only
+        n = (1 << (16 - r)) // 8  # bytes: the message then has 2^(16-r) + 8 payload bits
+        inner = G.MsgDef("Inner", True)
+        inner.fields = [G.Field("data", 1, G.TArray(G.TByte(), n, False)), G.Field("extra", 2, G.TUint(8))]
+        outer = G.MsgDef("Outer", False)
+        outer.fields = [G.Field("pad", 1, G.TUint(r)), G.Field("inner", 2, G.TRef(inner)), G.Field("tail", 3, G.TUint(8))]
+        out.append(mark(G.Schema(f"prefixmsg{'abcdefgh'[r]}", [inner, outer])))
+        if r >= 3:  # capacities beyond 8192 elements make the message exceed 65535 bits
+            arr = G.MsgDef("Arr", False)
+            arr.fields = [G.Field("pad", 1, G.TUint(r)), G.Field("items", 2, G.TArray(G.TBool() if r < 5 else G.TUint(3), (1 << (16 - r)) + 1, True)),
+                          G.Field("tail", 3, G.TUint(8))]
+            out.append(mark(G.Schema(f"prefixarr{'abcdefgh'[r]}", [arr])))
     return out
